@@ -258,18 +258,43 @@ def rule_screen_reject(rep: Report, repo: Repo) -> None:
               expected='(y+row)*width + (x+col) with row < rect_height, col < rect_width (inside the checked box)')
     for q in ('_update_screen', '_update_screen_raw'):
         f = repo.func(SC, f'InMemoryScreen.{q}')
-        first = [s for s in f.body if not (isinstance(s, ast.Expr) and isinstance(s.value, ast.Constant))][0]
-        rep.check(norm(first) == 'self._require_initialized_screen()', 'C19.SCREEN-REJECT', q, norm(first), f'{SC}:{f.lineno}')
+        order_q = [dotted(c.func) for c in calls_in_order(f)]
+        stores_q = [n for n in ast.walk(f) if isinstance(n, (ast.Assign, ast.AugAssign)) and any('self.pixel_indices' in norm(t) for t in
+                    (n.targets if isinstance(n, ast.Assign) else [n.target]))]
+        first_ok = 'self._require_initialized_screen' in order_q and all(order_q.index('self._require_initialized_screen') < i_ for i_, d in enumerate(order_q)
+                                                                         if d in ('self._read_packed_bytes', 'self._present'))
+        rep.check(first_ok and bool(stores_q), 'C19.SCREEN-REJECT', q, f'initialisation required before the first memory read / present: {first_ok}',
+                  f'{SC}:{f.lineno}')
+    # the packed-byte reader refuses to run without an attached memory: at every use of the adapter its absence is excluded
     rp = repo.func(SC, 'InMemoryScreen._read_packed_bytes')
-    g = [norm(t) for t, r, _ in raise_guards(rp)]
-    rep.check(g == ['self.device_memory is None'], 'C19.SCREEN-REJECT', '_read_packed_bytes', str(g), f'{SC}:{rp.lineno}')
-    sp = repo.func(SC, 'InMemoryScreen._set_palette')
-    t = norm(sp)
-    rep.check('self._read_packed_bytes(palette_bit_address, 3 * self.palette_size)' in t and 'for k in range(self.palette_size)' in t, 'C19.SCREEN-REJECT',
-              '_set_palette', '3*palette_size bytes read, indexed 3k..3k+2 for k < palette_size', f'{SC}:{sp.lineno}')
+    uses = [n for n in ast.walk(rp) if isinstance(n, ast.Attribute) and norm(n.value) == 'self.device_memory']
+    g_ok = bool(uses) and all(GuardFacts(dominating_guards(u)).get('self.device_memory is None') is False for u in uses)
+    raises_dev = [raised_class(r) for r in ast.walk(rp) if isinstance(r, ast.Raise)]
+    rep.check(g_ok and raises_dev == ['IODeviceException'], 'C19.SCREEN-REJECT', '_read_packed_bytes',
+              f'every use of the adapter is dominated by `device_memory is not None`: {g_ok}; raises {raises_dev}', f'{SC}:{rp.lineno}')
+    # the palette: 3 * palette_size bytes are read and entry k takes bytes 3k, 3k+1, 3k+2 for k < palette_size (folded on a grid)
+    sp = inline_pure_temps(repo.func(SC, 'InMemoryScreen._set_palette'))
+    reads_p = [c for c in calls(sp) if dotted(c.func) == 'self._read_packed_bytes' and len(c.args) == 2]
+    comps = [c for c in ast.walk(sp) if isinstance(c, ast.ListComp) and len(c.generators) == 1 and isinstance(c.elt, ast.Tuple) and len(c.elt.elts) == 3]
+    pal_ok = len(reads_p) == 1 and norm(reads_p[0].args[1]) in ('3 * self.palette_size', 'self.palette_size * 3') and len(comps) == 1 \
+        and norm(comps[0].generators[0].iter) == 'range(self.palette_size)' and isinstance(comps[0].generators[0].target, ast.Name)
+    if pal_ok:
+        kv = comps[0].generators[0].target.id
+        for kk in (0, 1, 7):
+            for pos_, e in enumerate(comps[0].elt.elts):
+                if not (isinstance(e, ast.Subscript)):
+                    pal_ok = False
+                    continue
+                try:
+                    pal_ok = pal_ok and eval_int_expr(e.slice, {kv: kk}) == 3 * kk + pos_
+                except AnalysisError:
+                    pal_ok = False
+    rep.check(pal_ok, 'C19.SCREEN-REJECT', '_set_palette', '3*palette_size bytes read, indexed 3k..3k+2 for k < palette_size', f'{SC}:{sp.lineno}')
+    # presenting never indexes the palette out of range: every palette subscript is dominated by index < len(palette)
     pr = repo.func(SC, 'InMemoryScreen._present')
-    rep.check('self.palette[index] if index < len(self.palette) else black' in norm(pr), 'C19.SCREEN-REJECT', '_present:palette-index',
-              'palette lookups are bounds-tested', f'{SC}:{pr.lineno}')
+    psubs = [n for n in ast.walk(pr) if isinstance(n, ast.Subscript) and isinstance(n.ctx, ast.Load) and norm(n.value) == 'self.palette']
+    pi_ok = bool(psubs) and all(GuardFacts(dominating_guards(n)).get(f'{norm(n.slice)} < len(self.palette)') is True for n in psubs)
+    rep.check(pi_ok, 'C19.SCREEN-REJECT', '_present:palette-index', 'palette lookups are bounds-tested', f'{SC}:{pr.lineno}')
 
 
 def _single_def(fn: ast.FunctionDef, name: str) -> Optional[ast.expr]:
